@@ -332,6 +332,30 @@ theorem source_alphabet_is_model (s : List Int) (hs : s ≠ []) (bs : List Nat) 
       | cons x xs ih => simp [Ops.ofRaws, Ops.raws, ih]
     simp [run, permittedAlphabet, Ops.ofRaws, Ops.isNil, Ops.raws, hr]
 
+/-- **the set operations at the source level**: `ConstraintsIntersection._testValue`, `ConstraintsUnion._testValue` and
+    `ConstraintsExclusion._testValue` (translated by gen/py2lean.py; the operands are handles, calling one is a callback
+    parameter) evaluate, for whatever constraints the handles stand for, to the model's verdict on the intersection / union
+    / exclusion of those constraints - which `eval_iff_den` identifies with ⋂, ⋃ and complement -/
+theorem source_intersection_is_model (r : Int → Constr) (ks : List Int) (hk : ks ≠ []) (i : Option Nat) (v : CVal) :
+    GenK.intersectionTest ks (fun k => Kernels.liftRes (run (r k) i v)) =
+      Kernels.liftRes (run (intersection (ks.map r)) i v) :=
+  Kernels.intersectionTest_kernel r ks hk i v
+
+theorem source_union_is_model (r : Int → Constr) (ks : List Int) (hk : ks ≠ []) (i : Option Nat) (v : CVal) :
+    GenK.unionTest ks (fun k => Kernels.liftRes (run (r k) i v)) = Kernels.liftRes (run (union (ks.map r)) i v) :=
+  Kernels.unionTest_kernel r ks hk i v
+
+theorem source_exclusion_is_model (r : Int → Constr) (ks : List Int) (hk : ks ≠ []) (i : Option Nat) (v : CVal) :
+    GenK.exclusionTest ks (fun k => Kernels.liftRes (run (r k) i v)) =
+      Kernels.liftRes (run (exclusion (ks.map r)) i v) :=
+  Kernels.exclusionTest_kernel r ks hk i v
+
+/-- non-vacuity: operands 0 (accepts) and 1 (refuses) -/
+example : GenK.unionTest [1, 0] (fun k => if k = 0 then .ok () else .error (.lib "ValueConstraintError")) = .ok () := by rfl
+example : GenK.intersectionTest [0, 1] (fun k => if k = 0 then .ok () else .error (.lib "ValueConstraintError")) =
+    .error (.lib "ValueConstraintError") := by rfl
+example : GenK.exclusionTest [1, 1] (fun k => if k = 0 then .ok () else .error (.lib "ValueConstraintError")) = .ok () := by rfl
+
 example : GenK.rangeTest 0 10 11 = .error (.lib "ValueConstraintError") := by rfl
 example : GenK.sizeTest 2 4 [97, 98, 99] = .ok () := by rfl
 example : GenK.alphabetTest [97, 98] [97, 99] = .error (.lib "ValueConstraintError") := by rfl
